@@ -998,3 +998,90 @@ def closed_forms_are_derivatives(c, kind):
     c.ctx.assumptions.add("sympy's symbolic differentiation and simplification are trusted for the derivative lemma (d = 2; the autograd replays cross-check numerically)")
     bad = _derivative_lemma(kind)
     c.prove(f"lemma.{kind}.closed_forms_equal_symbolic_derivatives", z3.BoolVal(not bad), mismatches=bad)
+
+
+@case("C05", clause="rbf_gradgrad", expand=lambda ix: [(1, False), (2, False), (2, True)], replay=lambda *a: replay_rbfgradgrad(*a), timeout=1500,
+      functions=[f"{KM}.rbf_kernel_gradgrad.RBFKernelGradGrad.forward"])
+def rbf_gradgrad(c, dval, ard):
+    """RBF kernel with its first derivatives and diagonal second derivatives, interleaved layout (row i*(2d+1) + p: p = 0 the value, p = 1 + a the derivative
+    d/dx_a, p = 1 + d + a the second derivative d2/dx_a^2), x1 != x2, symbolic n1, n2, concrete d.  The specification IS the symbolic derivative:
+        entry[(i, p), (j, q)] = D_p^{x1_i} D_q^{x2_j} exp(-1/2 sum_k ((x1_i[k] - x2_j[k]) / l_k)^2)
+    computed by the engine's differentiator (engine/diff.py) from the kernel expression and compared with the code's entry by the CAS"""
+    from engine import diff as D_
+    it, ctx = c.it, c.ctx
+    n1, n2 = c.size("n1"), c.size("n2")
+    c.assume(z3.And(n1.t >= 1, n2.t >= 1))
+    c.assume(n1.t != n2.t, "RBFKernelGradGrad is verified for x1 != x2 with different numbers of points (the branch that symmetrises K for x1 == x2 is covered by the bounded tier)")
+    d = z3.IntVal(dval)
+    x1, x2 = sym_tensor("x1", [n1.t, d]), sym_tensor("x2", [n2.t, d])
+    ls, lsf0 = lengthscale(c, [], d, ard)
+    lsf = lsf0([])
+    o = kernel_obj(c, f"{KM}.rbf_kernel_gradgrad.RBFKernelGradGrad", [], {"lengthscale": ls}, ard_num_dims=(VNum(d) if ard else NONE))
+    DistContract(c, o)
+    c.it.optable["hook.torch.equal"] = lambda it_, ctx_, a, k: FALSE
+    res = run_forward(c, o, x1, x2, False)
+    S = 2 * dval + 1
+    okr = len(res.dims) == 2
+    c.prove("rbf_gradgrad.shape", z3.And(res.dims[0].size == n1.t * S, res.dims[1].size == n2.t * S) if okr else z3.BoolVal(False))
+    if not okr:
+        return
+    i, j = ivar("i"), ivar("j")
+    c.assume(z3.And(i >= 0, i < n1.t, j >= 0, j < n2.t))
+    A = [x1.at([i, z3.IntVal(k_)]) for k_ in range(dval)]
+    B = [x2.at([j, z3.IntVal(k_)]) for k_ in range(dval)]
+    Ls = [lsf(z3.IntVal(k_)) for k_ in range(dval)]
+    r2 = sum((((A[k_] - B[k_]) * dom_real.recip(ctx, Ls[k_])) * ((A[k_] - B[k_]) * dom_real.recip(ctx, Ls[k_])) for k_ in range(dval)), z3.RealVal(0))
+    kv = dom_real.apply(ctx, "exp", -r2 / 2)
+
+    def deriv(t, vars_, p):
+        if p == 0:
+            return t
+        if p <= dval:
+            return D_.d(t, vars_[p - 1])
+        return D_.d(D_.d(t, vars_[p - 1 - dval]), vars_[p - 1 - dval])
+
+    rd = lambda r_, c_: E.resolve_ites(ctx, res.at_dims([r_, c_]))  # noqa: E731
+    for p in range(S):
+        for q in range(S):
+            want = deriv(deriv(kv, A, p), B, q)
+            c.prove_identity(f"rbf_gradgrad.D{p}_x1.D{q}_x2", rd(i * S + p, j * S + q), want, cas_first=True)
+
+
+def replay_rbfgradgrad(model, params, clause, info):
+    """real RBFKernelGradGrad against autograd (value, first derivatives, diagonal second derivatives in both arguments), interleaved layout, x1 != x2"""
+    import torch
+    import gpytorch
+    dval, ard = params
+    torch.manual_seed(8)
+    n1, n2 = 3, 2
+    k = gpytorch.kernels.RBFKernelGradGrad(ard_num_dims=(dval if ard else None)).double()
+    ls = torch.linspace(0.7, 1.2, dval if ard else 1, dtype=torch.double).reshape(1, -1)
+    k.lengthscale = ls
+    x1 = torch.randn(n1, dval, dtype=torch.double)
+    x2 = torch.randn(n2, dval, dtype=torch.double)
+    with torch.no_grad():
+        K = k(x1, x2).to_dense()
+    S = 2 * dval + 1
+    want = torch.zeros(n1 * S, n2 * S, dtype=torch.double)
+
+    def ops(f, v):
+        """[f, df/dv_a ..., d2f/dv_a^2 ...] as a list of scalar graph nodes"""
+        (g,) = torch.autograd.grad(f, v, create_graph=True)
+        out = [f] + [g[a] for a in range(dval)]
+        for a in range(dval):
+            (h,) = torch.autograd.grad(g[a], v, create_graph=True)
+            out.append(h[a])
+        return out
+
+    for i in range(n1):
+        for j in range(n2):
+            a = x1[i].clone().requires_grad_(True)
+            b = x2[j].clone().requires_grad_(True)
+            f = torch.exp(-0.5 * (((a - b) / ls.reshape(-1)) ** 2).sum())
+            for p, fp in enumerate(ops(f, a)):
+                for q, fpq in enumerate(ops(fp, b)):
+                    want[i * S + p, j * S + q] = fpq.detach()
+    err = (K - want).abs().max().item()
+    bad = K.shape != want.shape or err > 1e-8
+    return {"violates": bool(bad), "detail": f"RBFKernelGradGrad(ard={ard}) in d={dval}: max |K - autograd reference| = {err:.3e}",
+            "entry": {"module": "contracts.C05_kernels", "function": "replay_rbfgradgrad", "args": [model, list(params), clause, info]}}
